@@ -2,6 +2,7 @@
 (split over shards); 'plain' tests are deterministic enumerations run once per level."""
 
 COMMON_ASSUME = [
+    "tests marked noasm also run in the pure-Go build configuration (build tag noasmtest: the *_other.go encoders and decoder that non-amd64 hosts use), reported under per_level key '0-noasmtest'",
     "Go standard library (compress/flate, gzip, zlib, hash/crc32, hash/adler32) is correct where used as oracle, except for the documented NewWriterDict stored-block defect",
     "the reference inflater (harness/refinflate) is correct; it is cross-checked against compress/flate on every stream it judges",
     "acceleration levels are forced through the verif-tag hook in internal/cpu; levels the host CPU cannot execute are skipped and listed",
@@ -11,7 +12,7 @@ PROPS = {
     "C01": {
         "level": "exploration",
         "tests": [
-            {"name": "TestC01", "quick": 4000, "thorough": 60000},
+            {"name": "TestC01", "noasm": True, "quick": 4000, "thorough": 60000},
             {"name": "TestC01Ex", "kind": "plain"},
         ],
         "fuzz": [{"name": "FuzzC01RoundTrip", "time": "90s"}],
@@ -24,14 +25,14 @@ PROPS = {
     },
     "C09": {
         "level": "exploration",
-        "tests": [{"name": "TestC09", "quick": 8000, "thorough": 120000}],
+        "tests": [{"name": "TestC09", "noasm": True, "quick": 8000, "thorough": 120000}],
         "rule": "cases = (data recipe, accelerated setting over flate/gzip/zlib incl. 4K window, Flush offsets, two Write partitions refining the same Flush offsets, zero-length writes) drawn by rapid; "
                 "oracle (metamorphic): both partitions emit byte-for-byte what one Write per Flush segment emits. Non-trivial = the two partitions differ and data is non-empty; distinct = case digest.",
         "assumptions": COMMON_ASSUME,
     },
     "C10": {
         "level": "exploration",
-        "tests": [{"name": "TestC10", "quick": 8000, "thorough": 120000}],
+        "tests": [{"name": "TestC10", "noasm": True, "quick": 8000, "thorough": 120000}],
         "rule": "cases = (data recipe, flate/gzip/zlib setting at any level incl. Huffman-only, 4K window, dictionary; Write/Flush sequence with Flush first / repeated / with nothing pending / exactly at buffer-full points) drawn by rapid; "
                 "oracle at every Flush: reference inflater on the bytes emitted so far yields exactly the data written so far and stops at a byte-aligned block boundary (verdict TRUNCATED, not CORRUPT); the standard library reader yields the same bytes then io.ErrUnexpectedEOF; after Close the whole container is valid. "
                 "Non-trivial = at least one Flush with data before it and a Write after a Flush, served by fastgo's own compressor.",
@@ -39,7 +40,7 @@ PROPS = {
     },
     "C12": {
         "level": "exploration",
-        "tests": [{"name": "TestC12", "quick": 6000, "thorough": 100000}],
+        "tests": [{"name": "TestC12", "noasm": True, "quick": 6000, "thorough": 100000}],
         "rule": "cases = (setting over flate/gzip/zlib, one or two earlier histories of Write/Flush/Close with sizes that leave compressed-but-unemitted data, optional failing destination, gzip header fields set before; then Reset and a later history) drawn by rapid; "
                 "oracle (model = fresh object): per-call bytes, byte counts and errors after Reset equal those of a newly constructed Writer running the same later history; a closed later stream decodes to the later data. "
                 "Non-trivial = earlier history wrote >=1 byte, later history writes >=1 byte, fastgo's own compressor.",
@@ -47,7 +48,7 @@ PROPS = {
     },
     "C14": {
         "level": "fault_enumeration",
-        "tests": [{"name": "TestC14", "quick": 400, "thorough": 8000}],
+        "tests": [{"name": "TestC14", "noasm": True, "quick": 400, "thorough": 8000}],
         "rule": "cases = (setting, Write/Flush/Close sequence, error value, short-write size, optional Reset+later history) drawn by rapid; for each case the fault-free run counts the destination calls N and then EVERY k in 1..N (N<=64; stratified sample of first/last/op-boundary/stride otherwise) is injected. "
                 "Oracle: the operation containing call k returns the injected error; every later call returns non-nil; zero destination calls after the failure; no panic; canaries around Writer buffers intact; Reset(good) behaves like a new Writer; the fault-free run yields a complete valid container. "
                 "evaluations = (case, k) pairs. Non-trivial = the failing call happens inside Flush or Close, or k>1; fastgo's own compressor.",
@@ -67,21 +68,21 @@ PROPS = {
     },
     "C19": {
         "level": "exploration",
-        "tests": [{"name": "TestC19", "quick": 6000, "thorough": 100000}],
+        "tests": [{"name": "TestC19", "noasm": True, "quick": 6000, "thorough": 100000}],
         "rule": "cases = (data dominated by planted repeats at distances around 4096/32768/65536 separated by fresh random filler, periodic data with period just past a window, inputs > 64 KiB / > 128 KiB; 4K constructor at levels 1,2,-1,3..9 or ordinary constructor at 1,2,-1; Write/Flush partition) drawn by rapid; "
                 "oracle: maximum match distance in the reference inflater's trace <= 4096 (4K) / 32768, and the stream round-trips. Non-trivial = output contains a match with distance > window/2, or data > 64 KiB. Labels dist==w and no-match-at-all show the bound is approached from both sides.",
         "assumptions": COMMON_ASSUME,
     },
     "C20": {
         "level": "exploration",
-        "tests": [{"name": "TestC20", "quick": 8000, "thorough": 120000}],
+        "tests": [{"name": "TestC20", "noasm": True, "quick": 8000, "thorough": 120000}],
         "rule": "cases = expansion mode (uniform, near-uniform, Fibonacci-skewed, all-distinct, alternating compressible/incompressible, mixed recipes; sizes around block thresholds; levels -2,-1,1,2; both windows; one or several Writes, one Close, no Flush) and periodic mode (period 1..64, n in {65536,65537,70000,131072,200000,max}; levels 1,2,-1); "
                 "oracle: len(out) <= n + n/32 + 256, resp. <= n/32 + 1200, and the output decodes to the input. Non-trivial = n >= 1. measurements report the worst observed fraction of each bound per setting.",
         "assumptions": COMMON_ASSUME,
     },
     "C02": {
         "level": "exploration",
-        "tests": [{"name": "TestC02", "quick": 5000, "thorough": 80000}],
+        "tests": [{"name": "TestC02", "noasm": True, "quick": 5000, "thorough": 80000}],
         "fuzz": [{"name": "FuzzC02Synth", "time": "120s"}],
         "rule": "cases = valid DEFLATE streams from (a) the block-level synthesiser (stored/fixed/dynamic blocks, random complete prefix codes up to 15 bits incl. chain-shaped ones, degenerate single/no distance code, drawn run-length encodings of the header, HLIT/HDIST/HCLEN padding, overlap copies, distances up to 32768, empty blocks, hundreds of tiny blocks, output beyond the 64 KiB history), (b) compress/flate at levels -2..9 and (c) fastgo's own Writers over data recipes with Flushes; x a drawn cyclic sequence of Read buffer sizes; per acceleration level. "
                 "Oracle: concatenated Read results == compress/flate's output == reference inflater's == synthesiser's by-construction output, then io.EOF, further Reads (0, io.EOF). "
@@ -91,7 +92,7 @@ PROPS = {
     "C03": {
         "level": "exploration",
         "tests": [
-            {"name": "TestC03", "quick": 6000, "thorough": 100000},
+            {"name": "TestC03", "noasm": True, "quick": 6000, "thorough": 100000},
             {"name": "TestC03Ex", "kind": "plain"},
             {"name": "TestC03Sweep", "kind": "plain", "shards": {"quick": 1, "thorough": 3}},
         ],
@@ -103,7 +104,7 @@ PROPS = {
     },
     "C13": {
         "level": "exploration",
-        "tests": [{"name": "TestC13", "quick": 5000, "thorough": 80000}],
+        "tests": [{"name": "TestC13", "noasm": True, "quick": 5000, "thorough": 80000}],
         "rule": "cases = (package flate/gzip/zlib; 1-3 earlier inputs, valid or malformed, each with a read plan: no reads / read k bytes then abandon / drain to EOF or error; then Reset onto the next input: valid, truncated, malformed, in particular streams whose back-references reach before their own start; zlib with right / wrong / missing / unneeded dictionary; bad checksum or cut trailer; read sizes; source chunking) drawn by rapid. "
                 "Oracle (model = fresh object): Reset's return value, header fields, every byte and the final error string (incl. CorruptInputError offset) equal those of a newly constructed Reader (NewReader / NewReaderDict) on an identical source. "
                 "Non-trivial = an earlier use left undelivered output, an error or a mid-stream state, and the next input is non-empty.",
@@ -112,7 +113,7 @@ PROPS = {
     "C04": {
         "level": "exploration",
         "tests": [
-            {"name": "TestC04", "quick": 5000, "thorough": 80000},
+            {"name": "TestC04", "noasm": True, "quick": 5000, "thorough": 80000},
             {"name": "TestC04Ex", "kind": "plain"},
         ],
         "rule": "cases = (valid stream from the C02 generators, or such a stream cut at a drawn byte) x source schedule (all at once, 1-byte, drawn chunk sizes incl. (0,nil) reads and sizes around 16/328/4096, io.EOF delivered with the last bytes or alone) x entry point (NewReader(plain source), NewReader(*bufio.Reader of size s), Reset(*bufio.Reader of size s)), s in {16,17,31,64,327..329,4095..4097,64Ki,1Mi} x Read size sequence; plus, for small fixed streams, the two-chunk split at every byte offset and the 1-byte schedule (enumerated). "
